@@ -6,7 +6,7 @@ import ast
 from ..blockinterp import Compiled
 from ..env import Env, compile_fn, execute
 from ..kernel import Chooser, DfsStats, dfs_answers, shard_map
-from ..progs import all_target_programs, expr_programs, skeleton_sources, source_shapes, DEADCODE
+from ..progs import all_target_programs, chain_sources, expr_programs, skeleton_sources, source_shapes, DEADCODE
 from ..runner import Acc
 from ..sweep import exc_fingerprint, rotate
 
@@ -21,7 +21,9 @@ def programs(tier: str):
         out += list(skeleton_sources(2, "bare"))
         out += list(expr_programs(1, 3))
         out += list(expr_programs(2, 3))
+        out += list(chain_sources(3, "marked"))
     else:
+        out += list(chain_sources(3, "marked")) + list(chain_sources(3, "bare")) + list(chain_sources(4, "marked"))
         out += list(skeleton_sources(3, "marked", loop_else_upto=2))
         out += list(skeleton_sources(3, "bare", loop_else_upto=2))
         out += list(expr_programs(2, 4))
